@@ -219,3 +219,67 @@ pub fn reduce_nth(s: &S, k: &mut usize, kind: &mut &'static str) -> S {
         other => other.clone(),
     }
 }
+
+/// Variable occurrences (in `map_nth`'s pre-order) together with the other names in scope there.
+pub fn variable_sites(s: &S, scope: &mut Vec<String>, index: &mut usize, out: &mut Vec<(usize, Vec<String>)>) {
+    let me = *index;
+    *index += 1;
+    match s {
+        S::Var(n) if n != PLACEHOLDER => {
+            let others: Vec<String> = scope.iter().filter(|x| *x != n).cloned().collect();
+            if !others.is_empty() {
+                out.push((me, others));
+            }
+        }
+        S::Lam { name, ann, body, .. } => {
+            if let Some(a) = ann {
+                variable_sites(a, scope, index, out);
+            }
+            scope.push(name.clone());
+            variable_sites(body, scope, index, out);
+            scope.pop();
+        }
+        S::Pi { name, dom, cod, .. } => {
+            variable_sites(dom, scope, index, out);
+            scope.push(name.clone().unwrap_or_else(|| PLACEHOLDER.to_owned()));
+            variable_sites(cod, scope, index, out);
+            scope.pop();
+        }
+        S::App(a, b) | S::Bin(_, a, b) => {
+            variable_sites(a, scope, index, out);
+            variable_sites(b, scope, index, out);
+        }
+        S::Neg(a) | S::Paren(a) => variable_sites(a, scope, index, out),
+        S::If(a, b, c) => {
+            variable_sites(a, scope, index, out);
+            variable_sites(b, scope, index, out);
+            variable_sites(c, scope, index, out);
+        }
+        S::Let { defs, body } => {
+            let base = scope.len();
+            scope.extend(defs.iter().map(|d| d.name.clone()));
+            for d in defs {
+                if let Some(a) = &d.ann {
+                    variable_sites(a, scope, index, out);
+                }
+                variable_sites(&d.def, scope, index, out);
+            }
+            variable_sites(body, scope, index, out);
+            scope.truncate(base);
+        }
+        _ => {}
+    }
+}
+
+/// Replace one variable occurrence by another variable that is in scope at that point.
+pub fn swap_variable(s: &S, ch: &mut Ch) -> Option<S> {
+    let mut sites = vec![];
+    variable_sites(s, &mut vec![], &mut 0, &mut sites);
+    if sites.is_empty() {
+        return None;
+    }
+    let (site, others) = &sites[ch.pick(sites.len())];
+    let new = others[others.len() - 1 - ch.pick(others.len())].clone();
+    let mut k = *site;
+    Some(map_nth(s, &mut k, &mut |_| S::Var(new.clone())))
+}
